@@ -64,8 +64,71 @@ def ladder_cases():
     return [core.case(ops, kind='ctx', ctx=meta_ctx, items=items)]
 
 
+def refine_trees():
+    """(label, tree): recursions whose variable starts with a wildcard type (empty-set based initial value) and is refined by
+    the step; conditions / steps use structural operations that the wildcard accepts but only some refined types do. And
+    function definitions whose argument domains bind their own variables while the body contains a recursion."""
+    N = rg.N
+    L = lambda n: N('ID_LOCAL', n)
+    G = lambda n: N('ID_GLOBAL', n)
+    E = lambda: N('LIT_EMPTYSET')
+    a = lambda: L('a')
+    eq = lambda x, y: N('EQUAL', None, [x, y])
+    inits = {'empty': E, 'set-of-empty': lambda: N('NT_ENUMERATION', None, [E()])}
+    steps = {'X1': lambda: N('UNION', None, [a(), G('X1')]), 'S1': lambda: N('UNION', None, [a(), G('S1')]), 'S2': lambda: N('UNION', None, [a(), G('S2')]),
+             '{X1}': lambda: N('UNION', None, [a(), N('NT_ENUMERATION', None, [G('X1')])]), 'red': lambda: N('UNION', None, [N('REDUCE', None, [a()]), G('X1')]),
+             'Pr1': lambda: N('UNION', None, [N('BIGPR', [1], [a()]), G('X1')])}
+    conds = {'red': lambda: eq(N('REDUCE', None, [a()]), E()), 'Pr1': lambda: eq(N('BIGPR', [1], [a()]), E()), 'Pr2,1': lambda: eq(N('BIGPR', [2, 1], [a()]), E()),
+             'pr1-debool': lambda: eq(N('SMALLPR', [1], [N('DEBOOL', None, [a()])]), N('SMALLPR', [1], [N('DEBOOL', None, [a()])])),
+             'card': lambda: N('LESSER', None, [N('CARD', None, [a()]), N('LIT_INTEGER', 3)]),
+             'forall-pr1': lambda: N('FORALL', None, [L('x'), a(), eq(N('SMALLPR', [1], [L('x')]), N('SMALLPR', [1], [L('x')]))]),
+             'forall-card': lambda: N('FORALL', None, [L('x'), a(), N('GREATER', None, [N('CARD', None, [L('x')]), N('LIT_INTEGER', 0)])]),
+             'forall-in': lambda: N('FORALL', None, [L('x'), a(), N('IN', None, [L('x'), G('X1')])]),
+             'filter': lambda: eq(N('FILTER', [1], [G('X1'), a()]), a()), 'bool': lambda: N('NOTEQUAL', None, [N('BOOL', None, [a()]), E()]),
+             'red-card': lambda: N('LESSER', None, [N('CARD', None, [N('REDUCE', None, [a()])]), N('LIT_INTEGER', 3)])}
+    out = []
+    for iname, init in inits.items():
+        for sname, step in steps.items():
+            out.append((f'refine-short:{iname}:{sname}', N('NT_RECURSIVE_SHORT', None, [a(), init(), step()])))
+            for cname, cond in conds.items():
+                out.append((f'refine-full:{iname}:{sname}:{cname}', N('NT_RECURSIVE_FULL', None, [a(), init(), cond(), step()])))
+    # function definitions: argument domain with its own binder + recursion in the body (reported argument list)
+    dom1 = lambda: N('NT_DECLARATIVE_EXPR', None, [L('c'), G('X1'), eq(L('c'), L('p'))])
+    dom2 = lambda: N('NT_DECLARATIVE_EXPR', None, [L('c'), N('BOOLEAN', None, [G('X1')]), N('IN', None, [L('p'), L('c')])])
+    rec1 = lambda: N('NT_RECURSIVE_SHORT', None, [L('x'), N('NT_ENUMERATION', None, [L('p')]), N('UNION', None, [L('x'), N('NT_ENUMERATION', None, [L('q')])])])
+    rec2 = lambda: N('NT_RECURSIVE_SHORT', None, [L('x'), L('q'), N('UNION', None, [L('x'), N('NT_ENUMERATION', None, [L('p')])])])
+    rec3 = lambda: N('NT_RECURSIVE_FULL', None, [L('x'), E(), N('LESSER', None, [N('CARD', None, [L('x')]), N('LIT_INTEGER', 2)]), N('UNION', None, [L('x'), N('NT_ENUMERATION', None, [L('q')])])])
+    for dname, dom, bodies in (('D-elem', dom1, [('rec1', rec1), ('rec3', rec3)]), ('D-set', dom2, [('rec2', rec2)])):
+        for bname, body in bodies:
+            for order in ('pq', 'q-first-use'):
+                args = [N('NT_ARG_DECL', None, [L('p'), G('X1')]), N('NT_ARG_DECL', None, [L('q'), dom()])]
+                if order != 'pq':
+                    args.append(N('NT_ARG_DECL', None, [L('r'), N('NT_DECLARATIVE_EXPR', None, [L('d'), G('X1'), eq(L('d'), L('d'))])]))
+                fd = N('NT_FUNC_DEFINITION', None, [N('NT_ARGUMENTS', None, args), body()])
+                out.append((f'fundef:{dname}:{bname}:{order}', fd))
+                out.append((f'fundef-named:{dname}:{bname}:{order}', N('PUNC_DEFINE', None, [N('ID_FUNCTION', 'F9'), rg.map_locals(fd, lambda x: x)])))
+    return out
+
+
+def refine_cases():
+    ctx = ty.Ctx()
+    ctx.types = {'X1': ty.S(ty.E('X1')), 'S1': ty.S(ty.T(ty.E('X1'), ty.E('X1'))), 'S2': ty.S(ty.S(ty.E('X1')))}
+    ctx.traits = {'X1': 'nominal'}
+    ctx.vclass = {'X1': 'value', 'S1': 'value', 'S2': 'value'}
+    ops = [{'op': 'rs.ctx', 'ctx': 'c', 'spec': ctx.spec()}]
+    items = []
+    for label, tree in refine_trees():
+        for syntax in ('MATH', 'ASCII'):
+            src = rg.map_locals(tree, (lambda x: x) if syntax == 'MATH' else rg.translit)
+            text, _sp = rg.render(src, syntax)
+            ops.append({'op': 'rs.check', 'ctx': 'c', 'text': text, 'syntax': syntax})
+            items.append({'tree': src, 'mut': label.split(':')[0], 'text': text, 'syntax': syntax})
+    meta_ctx = {'types': ctx.types, 'funcs': {}, 'traits': ctx.traits, 'vclass': ctx.vclass, 'bodies': {}}
+    return [core.case(ops, kind='ctx', ctx=meta_ctx, items=items)]
+
+
 def build_cases(rnd, tier, first=False):
-    cases = ladder_cases() if first else []
+    cases = (ladder_cases() + refine_cases()) if first else []
     nctx = 40 if tier == 'quick' else 400
     for _ in range(nctx):
         g = ty.TypedGen(rnd)
